@@ -66,10 +66,12 @@ type tcase struct {
 	// TZ is the zone of the binary's process ("" = UTC); WsDir names the workspace directory ("" = "ws"), Decoys are
 	// sibling directories of the workspace holding scripts of their own
 	// InputVia: how the input reaches the binary: "" = a regular file, "stdin" = -i /dev/stdin, "fifo" = a named pipe
-	InputVia string   `json:"input_via,omitempty"`
-	TZ       string   `json:"process_zone,omitempty"`
-	WsDir    string   `json:"workspace_directory,omitempty"`
-	Decoys   []string `json:"sibling_directories,omitempty"`
+	InputVia string `json:"input_via,omitempty"`
+	// WsLink: the workspace path given to the binary is a symbolic link to the directory that holds the scripts
+	WsLink bool     `json:"workspace_is_symlink,omitempty"`
+	TZ     string   `json:"process_zone,omitempty"`
+	WsDir  string   `json:"workspace_directory,omitempty"`
+	Decoys []string `json:"sibling_directories,omitempty"`
 }
 
 type libOut struct {
@@ -165,7 +167,13 @@ func runBinary(c *tcase) (stdout string, before, after time.Time, err error) {
 		wsName = c.WsDir
 	}
 	ws := filepath.Join(dir, wsName)
-	_ = os.MkdirAll(ws, 0o755)
+	if c.WsLink {
+		real := filepath.Join(dir, "real-"+strings.NewReplacer("[", "", "]", "", "\\", "", "*", "", "?", "").Replace(wsName))
+		_ = os.MkdirAll(real, 0o755)
+		_ = os.Symlink(real, ws)
+	} else {
+		_ = os.MkdirAll(ws, 0o755)
+	}
 	for _, d := range c.Decoys {
 		// a sibling directory with a namesake of the selected script: not the workspace
 		_ = os.MkdirAll(filepath.Join(dir, d), 0o755)
@@ -494,6 +502,8 @@ var lpInputs = []string{
 	"disk,host=a,path=/ free=0.25,message=\"two words\",n=3i 1234567890123456789\ncpu second=1i 1\n",
 	"m,t1=v1,t2=v2 message=\"hello world\",big=9007199254740993i,neg=-1i,f=-0.5 1609459200000000000\n",
 	"weird\\ name,ta\\,g=v\\ 1 fi\\ eld=\"q\\\"uote\",n=3i 42\n",
+	// every escape the measurement, a tag key, a tag value and a field key admit
+	"cpu\\=total,host=h1 usage=7i 1600000000000000001\n", "m\\\"q,host=h1 v=1i 1600000000000000002\n", "cpu\\,x\\ y\\=z,ho\\=st=h\\=1,a\\ b=c\\,d v\\=w=1i,n=3i 1600000000000000003\n", "back\\\\slash,host=h1 n=3i 5\n",
 	"# a leading comment line\ncpu,host=h1 usage=1.5,n=3i 1600000000000000000\n",
 	"\n\ncpu,host=h1 usage=2.5,n=3i 1600000000000000001\n",
 	"logs,host=h1 message=\"first line\nsecond line\",n=3i 1600000000000000002\n",
@@ -626,6 +636,11 @@ func genCase(t *rapid.T) (*tcase, bool, []string) {
 		}
 	}
 	c.Format = rapid.SampledFrom([]string{"json", "lineprotocol"}).Draw(t, "format")
+	if rapid.IntRange(0, 5).Draw(t, "wslink") == 0 {
+		c.WsLink = true
+		labels = append(labels, "workspace/is-a-symbolic-link")
+		nontrivial = true
+	}
 	// the input reaches the binary through something that is not a regular file
 	if c.Input != "none" && rapid.IntRange(0, 4).Draw(t, "via") == 0 {
 		c.InputVia = rapid.SampledFrom([]string{"stdin", "fifo"}).Draw(t, "inputvia")
